@@ -86,3 +86,26 @@ package scheduler
 //@          arg0 == i.children[w.lastInvocation.invocationKeys[stickinessRetained]]
 //@   at call isPreferred#1 assert compared-with-best-queued-child: arg1 == i.queuedChildren[0]
 //@   at call assignQueuedTask#1 assert directly-queued-first: arg2 == i.queuedOperations[0].task
+
+// ---------------------------------------------------------------------------
+// Platform queues are found through the platform key trie (C05)
+//
+// The trie maps a platform key to the slot of its queue in bq.platformQueues
+// (assumed contract of the trie: /verif/stubs/scheduler.spec). A queue that
+// is created resolves to its own slot; a queue that is removed no longer
+// resolves at all, so requests for it are rejected instead of being queued on
+// whichever queue takes the slot later; the queue that is moved into the freed
+// slot resolves to that slot.
+//@ func (*InMemoryBuildQueue).addPlatformQueue
+//@   props C05
+//@   ensures new-queue-resolves-to-its-own-slot:
+//@             triemap[bq.platformQueuesTrie][platformKey] == old(len(bq.platformQueues)) + 1 &&
+//@             len(bq.platformQueues) == old(len(bq.platformQueues)) + 1 &&
+//@             bq.platformQueues[old(len(bq.platformQueues))] == r0 && r0.platformKey == platformKey
+//@ func (*sizeClassQueue).remove
+//@   props C05
+//@   ensures removed-platform-no-longer-resolves:
+//@             len(pq.sizeClasses) == 0 ==> triemap[bq.platformQueuesTrie][pq.platformKey] == 0
+//@   ensures moved-queue-resolves-to-the-freed-slot:
+//@             len(pq.sizeClasses) == 0 && lastPQ != pq && lastPQ.platformKey != pq.platformKey ==>
+//@             triemap[bq.platformQueuesTrie][lastPQ.platformKey] == index + 1 && bq.platformQueues[index] == lastPQ
